@@ -1601,7 +1601,12 @@ impl<'a, 'b> InternalDelphiLogicalLineParser<'a, 'b> {
                 _ => parser.next_token(),
             },
         );
-        if let Some(KK::Default) = self.get_current_keyword_kind() {
+        // A member that happens to be called `Default` (`Default: Integer;`) is not the directive
+        let is_member_name = matches!(
+            self.get_token_type::<1>(),
+            Some(TT::Op(OK::Colon | OK::Comma))
+        );
+        if let (Some(KK::Default), false) = (self.get_current_keyword_kind(), is_member_name) {
             // Handles `property ...; default;`
             self.consolidate_current_keyword();
             self.next_token(); // Default
